@@ -171,12 +171,12 @@ class CombineModules(Harness):
     functions = [MI + "combine_modules", MI + "build_modules_for_cds", MI + "Module.add_component", MI + "Module.is_complete"]
     bound = ("two adjacent genes with (2,1), (1,2) or (2,2) domains (quick: (2,1) and (1,2)), every domain name symbolic over the full "
              "alphabet, KS subtypes symbolic, both strand combinations")
-    outside = "more domains per gene; more than two genes"
+    outside = "more than two domains per gene; more than two genes"
     stubs = BuildModules.stubs
     task_paths = 200
 
     def variants(self, tier):
-        sizes = [(2, 1), (1, 2)] if tier == "quick" else [(2, 1), (1, 2), (2, 2), (1, 1), (3, 1)]
+        sizes = [(2, 1), (1, 2)] if tier == "quick" else [(2, 1), (1, 2), (2, 2), (1, 1)]
         return [{"sizes": list(sz), "strands": list(st)} for sz in sizes for st in ((1, 1), (1, -1))]
 
     def vars(self, var):
